@@ -77,6 +77,11 @@ func gen(tier string, r *lib.Rand, emit func(string)) {
 		emit("print " + acclib.EncScript(t))
 	}
 	emit("print -")
+	// keyword look-alike identifiers in every statement position
+	acclib.LookalikeCases(func(src string, want *ast.Chain) {
+		emit("fmt " + hex(src))
+		emit("print " + acclib.EncScript(want))
+	})
 	// (d) every tree reached by parsing generated texts
 	for _, s := range acclib.Rejections {
 		emit("fmt " + hex(s))
@@ -108,5 +113,6 @@ func nontrivial(c, res string) bool {
 }
 
 func main() {
-	lib.Main(lib.Prop{ID: "C07", Gen: gen, Run: acclib.Run, Oracle: acclib.OracleC07, Nontrivial: nontrivial, PanicClass: acclib.PanicClass})
+	lib.Main(lib.Prop{ID: "C07", Gen: gen, Run: acclib.Run, Oracle: acclib.OracleC07, Nontrivial: nontrivial, PanicClass: acclib.PanicClass,
+		Neighbours: acclib.Neighbours("fmt")})
 }
